@@ -127,6 +127,7 @@ func genDocs(r *lib.Run, rng *lib.Rand) {
 	badCfgs := []cfgT{
 		{nic: stdNIC, netfilter: netip.Prefix{}, dns: ip("8.8.8.8")},
 		{nic: stdNIC, netfilter: netip.MustParsePrefix("10.0.0.1/24"), dns: ip("8.8.8.8")},
+		{nic: stdNIC, netfilter: netip.MustParsePrefix("192.168.0.129/16"), dns: ip("8.8.8.8")},                                    // wider than the home LAN
 		{nic: stdNIC, netfilter: netip.MustParsePrefix("192.168.0.129/25"), dns: ip("0.0.0.0")},                                    // reset fails: invalid DNS
 		{nic: nicT{home: lib.HomeLAN, host: lib.HostIP4, router: ip("10.0.0.1")}, netfilter: stdCfg.netfilter, dns: ip("8.8.8.8")}, // router outside home
 	}
